@@ -442,7 +442,8 @@ func hostileControl(r *core.Rand) hostileConn {
 			case 2:
 				t = rc.Tran{Type: 103, Fields: []rc.Field{rc.F(101, text)}}
 			case 3:
-				t = rc.Tran{Type: 304, Fields: []rc.Field{rc.F(102, text), rc.F(104, rc.U16(1))}}
+				// ... and an icon id of 0 to 5 bytes (2 and 4 are the legal integer encodings)
+				t = rc.Tran{Type: 304, Fields: []rc.Field{rc.F(102, text), rc.F(104, r.Bytes(r.Intn(6)))}}
 			case 4:
 				t = rc.Tran{Type: 207, Fields: []rc.Field{rc.FS(201, "dir"), rc.F(202, rc.PathS("public")), rc.F(210, text)}}
 			case 5:
